@@ -39,6 +39,11 @@ CONSTANTS
     SchedArgs,    \* set of explicit scheduler step arguments (-1 = none given)
     SaveArgs,     \* subset of BOOLEAN: include_factors values a Save may use
     LoadArgs,     \* subset of BOOLEAN: compute_inverses values a Load may use
+    Script,       \* <<>> or a sequence of [act, arg]: generate exactly this
+                  \* history (directed long behaviours)
+    Steps0,       \* step count the history starts from (a run resumed from a
+                  \* state that carries only the counters: long-running jobs
+                  \* have step counts far beyond what a history can reach)
     IntTable,     \* [name -> sequence of values]: interval functions given by
                   \* their values at steps 0, 1, 2, ... (the last value
                   \* continues); used for traces of arbitrary drivers
@@ -103,7 +108,7 @@ HPV(p) ==
     ELSE [p |-> p, kind |-> fl[p].kind, log |-> fl[p].log, at |-> 0]
 
 Init ==
-    /\ steps = 0
+    /\ steps = Steps0
     /\ fv = FSpec /\ iv = ISpec
     /\ fl = [p \in FloatParams |-> [kind |-> FloatKind[p], log |-> <<>>]]
     /\ mini = 0 /\ aAcc = <<>> /\ gAcc = <<>>
@@ -162,8 +167,14 @@ Obs(st, f, i, flv, af, gf) ==
                ELSE [p |-> p, kind |-> flv[p].kind, log |-> flv[p].log, at |-> 0]],
      aFac |-> af, gFac |-> gf]
 
-Rec(act, arg, extra) == h' = Append(h, [act |-> act, arg |-> arg, x |-> extra,
-        obs |-> Obs(steps', fv', iv', fl', aFac', gFac')])
+ScriptOK(act, arg) ==
+    \/ Script = <<>>
+    \/ /\ Len(h) < Len(Script)
+       /\ Script[Len(h) + 1].act = act /\ Script[Len(h) + 1].arg = arg
+Rec(act, arg, extra) ==
+    /\ ScriptOK(act, arg)
+    /\ h' = Append(h, [act |-> act, arg |-> arg, x |-> extra,
+                       obs |-> Obs(steps', fv', iv', fl', aFac', gFac')])
 
 Live == ~raised /\ Len(h) < MaxDepth
 Boundary == Strict => raw = <<>>      \* a step boundary (no pending gradients)
@@ -301,6 +312,33 @@ Load(comp) ==
     /\ UNCHANGED <<raw, pass, ckpt, raised>>
     /\ Rec("load", comp, [hasInv |-> inv'.has])
 
+\* load_state_dict into the SAME, used instance (a roll-back): counters,
+\* constant hyper-parameters and -- when saved -- factors are overwritten;
+\* pending batch statistics and the micro-step counter stay; second-order
+\* data stays unless it is recomputed from the restored factors
+Rollback(comp) ==
+    /\ Live /\ "Rollback" \in Alphabet /\ Boundary
+    /\ ckpt.has
+    /\ steps' = ckpt.steps
+    /\ fv' = IF FSpec.kind = "const" THEN ckpt.fv ELSE FSpec
+    /\ iv' = IF ISpec.kind = "const" THEN ckpt.iv ELSE ISpec
+    /\ fl' = [p \in FloatParams |->
+                IF FloatKind[p] = "const" THEN ckpt.fl[p]
+                ELSE [kind |-> FloatKind[p], log |-> <<>>]]
+    /\ aFac' = IF ckpt.inc THEN ckpt.aFac ELSE aFac
+    /\ gFac' = IF ckpt.inc THEN ckpt.gFac ELSE gFac
+    /\ LET rec == comp /\ ckpt.inc /\ ckpt.aFac.has /\ ckpt.gFac.has IN
+       /\ inv' = IF rec
+                 THEN [has |-> TRUE, A |-> ckpt.aFac, G |-> ckpt.gFac,
+                       damp |-> IF FloatKind["damping"] = "fn"
+                                THEN [p |-> "damping", kind |-> "fn",
+                                      log |-> <<>>, at |-> ckpt.steps]
+                                ELSE [p |-> "damping", kind |-> "const",
+                                      log |-> ckpt.fl["damping"].log, at |-> 0]]
+                 ELSE inv
+       /\ Rec("rollback", comp, [hasInv |-> inv'.has, recomputed |-> rec])
+    /\ UNCHANGED <<mini, aAcc, gAcc, raw, pass, ckpt, raised>>
+
 MemoryUsage ==
     /\ Live /\ "Mem" \in Alphabet /\ Boundary
     /\ UNCHANGED <<kvars, raw, pass, ckpt, raised>>
@@ -313,6 +351,7 @@ Next ==
     \/ \E a \in SchedArgs : SchedStep(a)
     \/ \E b \in SaveArgs : Save(b)
     \/ \E b \in LoadArgs : Load(b)
+    \/ \E b \in LoadArgs : Rollback(b)
     \/ MemoryUsage
 
 Spec == Init /\ [][Next]_vars
@@ -338,6 +377,8 @@ InvRefreshOnlyOnMultiples ==
 \* ... and always on step 0
 RefreshOnStepZero ==
     [][(steps = 0 /\ steps' = 1) => (inv'.has /\ inv'.A = aFac' /\ inv'.G = gFac')]_vars
+\* (a history that starts at Steps0 > 0 without second-order data can only
+\* step on a refresh step: StepFails otherwise)
 
 \* eval-mode passes leave all K-FAC state unchanged
 EvalFrame == [][EvalPass => UNCHANGED kvars]_vars
